@@ -243,6 +243,20 @@ impl Env {
                 }
                 ctx.log("RET drop unit".to_string());
             }
+            ["pdrop"] => {
+                // the DroppableStore is dropped while its owner unwinds from a panic
+                ctx.log("INV drop".to_string());
+                let d = DroppableStore::new(self.store());
+                let t0 = std::time::Instant::now();
+                let _ = std::panic::catch_unwind(std::panic::AssertUnwindSafe(move || {
+                    let _owned = d;
+                    std::panic::resume_unwind(Box::new("scripted panic"));
+                }));
+                if t0.elapsed().as_millis() >= 2500 {
+                    ctx.log("SLOWSTOP".to_string());
+                }
+                ctx.log("RET drop unit".to_string());
+            }
             ["th", k, body] => {
                 ctx.log(format!("INV {}", op));
                 cb_point("client.call");
